@@ -463,6 +463,103 @@ def evaluate(ctx, exe, drv, cases, model_max, timeout):
                                "case: %s\n%s" % (lines[ci][:600], "\n".join(diffs[:6])))
 
 
+def py_payload(n, seed):
+    out = bytearray(n)
+    for i in range(n):
+        x = (i * 2654435761 + seed * 40503) & 0xFFFFFFFF
+        out[i] = ((x >> 11) ^ (x >> 23)) & 0xFF
+    return bytes(out)
+
+
+def coq_list(bs):
+    return "[" + "; ".join(str(b) for b in bs) + "]"
+
+
+def coq_crosscheck(ctx, exe, r, count):
+    """A few small single-message cases evaluated by coqc itself (vm_compute on Conn/Send.v run_send with the
+    recorded schedule) and compared byte for byte with what the peer received: guards the extraction and the
+    OCaml driver, which all other cases go through."""
+    import re
+    import zlib
+    cases = []
+    for _ in range(count):
+        m = gen_msg(r, False, False)
+        m["pay"] = r.choice([0, 1, 5, 40, 200])
+        m["hv"] = r.choice([0, 2, 3])
+        m["plen"] = 0
+        m["script"] = gen_script(r, False)
+        cases.append(({"sndbuf": 4608, "pre": r.choice([0, 2])}, [m]))
+    lines = [case_line(h, ms) for h, ms in cases]
+    outs = run_sharded(exe, lines, timeout=120)
+    terms, expect = [], []
+    for (head, msgs), (out, err), line in zip(cases, outs, lines):
+        if out is None or out.startswith("PANIC") or out == "HANG":
+            continue                      # judged by the main stream
+        m = msgs[0]
+        res = parse_kv(out.split("|")[1].strip())
+        if res.get("senderr") != "0" or res["mismatch"] != "-":
+            continue
+        hdr = bytes.fromhex(res["hdr"])
+        prefix = bytes.fromhex(res["prefix"]) if res["prefix"] != "-" else b""
+        body = prefix + py_payload(int(res["bodylen"]) - len(prefix), m["seed"])
+        if zlib.crc32(body) != int(res["bodycrc"]):
+            ctx.tie_broken("correspondence: the payload formula of the check differs from the harness", line[:300])
+            continue
+        flen = u32_at(hdr, 12, m["bo"])
+        sched = []
+        prev = 0
+        for b, acc in parse_log(res["log"]):
+            delta, prev = acc - prev, acc
+            if b == "w:E":
+                sched.append("Again")
+            elif b.startswith("w:") and b[2:3].isdigit():
+                sched.append("Accept %d" % int(b[2:].rstrip("!")))
+            elif b == "s":
+                sched.append("Suspend")
+            elif b == "r":
+                sched.append("Resume")
+            elif b.endswith(":ok") or b.endswith(":E"):
+                if delta > 0:
+                    sched.append("Accept %d" % delta)
+                if b.endswith(":E"):
+                    sched.append("Again")
+        typ = {1: "MCall", 2: "MReply", 3: "MError", 4: "MSignal"}[TYP_OF_HV[m["hv"]]]
+        preset = "None" if m["preset"] == "-" else "Some %s" % m["preset"]
+        terms.append(
+            "Eval vm_compute in (let m := {| msg_typ := %s; msg_flags := %d; msg_dyn := dh (%s); msg_bo := %s; msg_body := %s; msg_raw_fds := %s |} in\n"
+            "  match send_message (fun _ => Some %s) (pre_allocs %d conn_init) m with\n"
+            "  | Ok (_, Some x) => let r := run_send x world0 [%s] in\n"
+            "      Some (wire (r_world r), fds_delivered (r_world r), bytes_sent (r_state r), r_completed r, r_reported r, r_panicked r)\n"
+            "  | _ => None end)." % (typ, m["flags"], preset, "BE" if m["bo"] == "B" else "LE", coq_list(body),
+                                     coq_list(range(m["nfds"])), coq_list(hdr[16:16 + flen]), head["pre"], "; ".join(sched)))
+        expect.append((line, hdr + body, list(range(m["nfds"])), int(res["serial"])))
+    if not terms:
+        return
+    v = ("From RB Require Import Base.Prelude Conn.Serial Conn.SerialProofs Conn.Send Conn.SendProofs.\n"
+         "Definition dh (p : option N) : dynheader := {| dh_interface := None; dh_member := None; dh_object := None; dh_destination := None; dh_serial := p; dh_sender := None; dh_signature := None; dh_error_name := None; dh_response_serial := None; dh_num_fds := None |}.\n"
+         "Fixpoint pre_allocs (n : nat) (c : send_conn) : send_conn := match n with O => c | S k => match alloc_serial c with Ok (_, c') => pre_allocs k c' | _ => c end end.\n"
+         + "\n".join(terms) + "\n")
+    out = vlib.coq_eval("c10_cross", v)
+    blocks = [b for b in re.split(r"^\s*= ", out, flags=re.M)[1:]]
+    if len(blocks) != len(terms):
+        ctx.tie_broken("in-Coq evaluation printed %d results for %d terms" % (len(blocks), len(terms)), out[-1500:])
+        return
+    for blk, (line, wire, fds, serial) in zip(blocks, expect):
+        txt = " ".join(blk.split())
+        mm = re.match(r"Some \(\s*(\[[^\]]*\]),\s*(\[[^\]]*\]),\s*(\d+),\s*(true|false),\s*(Some (\d+)|None),\s*(true|false)\s*\)", txt)
+        ok = False
+        if mm:
+            nums = lambda t: [int(x) for x in re.findall(r"\d+", t)]
+            ok = (nums(mm.group(1)) == list(wire) and nums(mm.group(2)) == fds and int(mm.group(3)) == len(wire)
+                  and mm.group(4) == "true" and mm.group(6) == str(serial) and mm.group(7) == "false")
+        ctx.count("in_coq_vm_compute_cases")
+        ctx.case(("coq", line), nontrivial=False)
+        if not ok:
+            ctx.disagreements_checked += 1
+            ctx.tie_broken("correspondence: Coq's own evaluation of the model (vm_compute run_send) differs from the bytes/descriptors/serial observed at the peer",
+                           "case: %s\ncoq: %s" % (line[:400], txt[:600]))
+
+
 def run(ctx):
     thorough = ctx.tier == "thorough"
     ctx.rule = ("cases = 1-3 messages sent one after the other on one real connection (AF_UNIX socket pair, SO_SNDBUF of the "
@@ -503,6 +600,7 @@ def run(ctx):
     tmp = private_scratch()
     try:
         evaluate(ctx, exe, drv, cases, MODEL_MAX_THOROUGH if thorough else MODEL_MAX_QUICK, timeout=1800 if thorough else 240)
+        coq_crosscheck(ctx, exe, ctx.sub_rng("coq"), 24 if thorough else 6)
     finally:
         shutil.rmtree(tmp, ignore_errors=True)
     ctx.exhaustive = False
